@@ -1,2 +1,1010 @@
-From Coq Require Import ZArith List Bool Lia.
-From NV Require Import Base.Result Base.Bytes Model.IsoDep.
+(* ISO-DEP: round simulation of the (repaired) reader against the ISO/IEC 14443-4 card.
+
+   [Sync] relates reader and card during one exchange of the command [cmd]:
+     A   the card has not yet received the command block at [off]
+     B   it has received that (chained) block and acknowledged it (possibly via S(WTX))
+     C   it has received the last block, executed the APDU ONCE and sent the first response block
+     D1  the reader has a chained response block, the card has not yet seen the R(ACK)
+     D2  the card has seen the R(ACK) and sent the next response block
+     Ok / Err  the exchange is over
+   [round_sync]: one clf.exchange with ANY fate pair keeps [Sync] and strictly decreases the
+   measure [mu]; everything else follows by induction over the script. *)
+From Coq Require Import ZArith List Bool Lia ZifyBool.
+From NV Require Import Base.Result Base.Bytes Model.IsoDep Proofs.IsoDep.
+Import ListNotations.
+Open Scope Z_scope.
+Ltac Zify.zify_post_hook ::= Z.to_euclidean_division_equations.
+
+Lemma next_iblock_spec kc b data ib rest : 0 < cmiu kc ->
+  next_iblock kc b data = (ib, rest) ->
+  exists ch chunk, bit ch /\ ib = Z.lor (Z.lor 2 (16 * ch)) b :: chunk /\ chunk ++ rest = data /\
+                   (ch = 1 <-> rest <> []) /\ (data <> [] -> chunk <> []) /\ len chunk <= cmiu kc.
+Proof.
+  intros Hc H. unfold next_iblock in H. inversion H; subst; clear H.
+  exists (if len (drop (cmiu kc) data) >? 0 then 1 else 0), (take (cmiu kc) data).
+  split; [destruct (len _ >? 0); [right|left]; reflexivity|].
+  split; [destruct (len _ >? 0); reflexivity|].
+  split; [apply take_drop|].
+  split.
+  - destruct (len (drop (cmiu kc) data) >? 0) eqn:E.
+    + split; [intros _; apply len_pos_cons, E|reflexivity].
+    + split; [discriminate|]. intro Hn. apply len_pos_nil in E. congruence.
+  - split.
+    + intros Hd Ht. destruct data as [|x data]; [congruence|].
+      unfold take in Ht. destruct (Z.to_nat (cmiu kc)) eqn:En; [lia|]. discriminate.
+    + apply len_take_le. lia.
+Qed.
+
+Definition kind (d : bytes) : Z := match d with b0 :: _ => if b0 =? 242 then 0 else 1 | [] => 1 end.
+Lemma kind_le d : 0 <= kind d <= 1.
+Proof. destruct d as [|b0 d]; cbn; [lia|]. destruct (b0 =? 242); lia. Qed.
+Lemma kind_wtx w : kind [242; w] = 0. Proof. reflexivity. Qed.
+Lemma kind_nak pn : bit pn -> kind [Z.lor 178 pn] = 1. Proof. intros [-> | ->]; reflexivity. Qed.
+Lemma kind_ack pn : bit pn -> kind [Z.lor 162 pn] = 1. Proof. intros [-> | ->]; reflexivity. Qed.
+Lemma kind_iblock k cmd pn off : bit pn -> kind (iblock k cmd pn off) = 1.
+Proof. intros [-> | ->]; unfold iblock, pfb_at, kind; destruct (more_at k cmd off); reflexivity. Qed.
+
+Section SyncProof.
+Variable app : Z -> bytes -> bytes.
+Variable k : cfg.
+Variable kc : ccfg.
+Variable cmd : bytes.
+Variable e0 : list bytes.
+Hypothesis Hmiu : 0 < miu k.
+Hypothesis Hcmiu : 0 < cmiu kc.
+Hypothesis Hfsc : miu k + 3 <= cfsc kc.
+Hypothesis Hf1 : fix_wtx_try k = true.
+Hypothesis Hf2 : fix_wtx_chain k = true.
+
+Definition R : bytes := app (len e0) cmd.
+
+(* ---------------------------------------------------------------- card side of the relation *)
+Definition CardA (pn off : Z) (c : picc) : Prop :=
+  bn c = flip pn /\ pend c = None /\ rxbuf c = take off cmd /\ txrest c = [] /\ execs c = e0.
+Definition CardB (pn off : Z) (c : picc) : Prop :=
+  bn c = pn /\ rxbuf c = take (off + miu k) cmd /\ txrest c = [] /\ execs c = e0 /\ emitted [Z.lor 162 pn] c.
+Definition CardC (pn : Z) (c : picc) : Prop :=
+  exists ib rest, bn c = pn /\ rxbuf c = [] /\ execs c = e0 ++ [cmd] /\ next_iblock kc pn R = (ib, rest) /\
+                  txrest c = rest /\ emitted ib c.
+Definition CardD1 (pn : Z) (rsp : bytes) (c : picc) : Prop :=
+  bn c = flip pn /\ pend c = None /\ txrest c <> [] /\ rsp ++ txrest c = R /\ rxbuf c = [] /\ execs c = e0 ++ [cmd].
+Definition CardD2 (pn : Z) (rsp : bytes) (c : picc) : Prop :=
+  exists T ib rest, bn c = pn /\ T <> [] /\ rsp ++ T = R /\ next_iblock kc pn T = (ib, rest) /\
+                    txrest c = rest /\ rxbuf c = [] /\ execs c = e0 ++ [cmd] /\ emitted ib c.
+
+(* what the reader sends once the card has answered: its retry block or the echo of the outstanding S(WTX) *)
+Inductive rdata (retry : bytes) (c : picc) (d : bytes) : Prop :=
+| Rd_retry : d = retry -> rdata retry c d
+| Rd_echo w ws nxt : d = [242; w] -> pend c = Some (w, ws, nxt) -> rdata retry c d.
+
+Inductive Sync : pcd -> picc -> Prop :=
+| S_A pn off i d c : bit pn -> 0 <= off < len cmd ->
+    (d = iblock k cmd pn off \/ (d = [Z.lor 178 pn] /\ i <= n_nak k + 1)) -> CardA pn off c ->
+    Sync (mkp pn (PSend off i d)) c
+| S_B pn off i d c : bit pn -> 0 <= off < len cmd -> more_at k cmd off = true ->
+    CardB pn off c -> rdata [Z.lor 178 pn] c d -> Sync (mkp pn (PSend off i d)) c
+| S_C pn off i d c : bit pn -> 0 <= off < len cmd -> more_at k cmd off = false ->
+    CardC pn c -> rdata [Z.lor 178 pn] c d -> Sync (mkp pn (PSend off i d)) c
+| S_D1 pn i rsp c : bit pn -> CardD1 pn rsp c -> Sync (mkp pn (PRecv i [Z.lor 162 pn] rsp)) c
+| S_D2 pn i d rsp c : bit pn -> CardD2 pn rsp c -> rdata [Z.lor 162 pn] c d -> Sync (mkp pn (PRecv i d rsp)) c
+| S_Ok pn c : bit pn -> bn c = flip pn -> pend c = None -> txrest c = [] -> rxbuf c = [] ->
+    execs c = e0 ++ [cmd] -> Sync (mkp pn (PDone (Ok R))) c
+| S_Err pn e c : (execs c = e0 \/ execs c = e0 ++ [cmd]) -> Sync (mkp pn (tagerr e)) c.
+
+(* the states a fault-free run passes through: the reader never holds a retry block *)
+Inductive Clean : pcd -> picc -> Prop :=
+| C_A pn off i c : bit pn -> 0 <= off < len cmd -> CardA pn off c ->
+    Clean (mkp pn (PSend off i (iblock k cmd pn off))) c
+| C_B pn off i c w ws nxt : bit pn -> 0 <= off < len cmd -> more_at k cmd off = true ->
+    CardB pn off c -> pend c = Some (w, ws, nxt) -> Clean (mkp pn (PSend off i [242; w])) c
+| C_C pn off i c w ws nxt : bit pn -> 0 <= off < len cmd -> more_at k cmd off = false ->
+    CardC pn c -> pend c = Some (w, ws, nxt) -> Clean (mkp pn (PSend off i [242; w])) c
+| C_D1 pn i rsp c : bit pn -> CardD1 pn rsp c -> Clean (mkp pn (PRecv i [Z.lor 162 pn] rsp)) c
+| C_D2 pn i rsp c w ws nxt : bit pn -> CardD2 pn rsp c -> pend c = Some (w, ws, nxt) ->
+    Clean (mkp pn (PRecv i [242; w] rsp)) c
+| C_Ok pn c : bit pn -> bn c = flip pn -> pend c = None -> txrest c = [] -> rxbuf c = [] ->
+    execs c = e0 ++ [cmd] -> Clean (mkp pn (PDone (Ok R))) c.
+
+Lemma Clean_Sync p c : Clean p c -> Sync p c.
+Proof.
+  intro H.
+  destruct H as [pn off i c Hb Ho HA | pn off i c w ws nxt Hb Ho Hm HB Hp | pn off i c w ws nxt Hb Ho Hm HC Hp
+                | pn i rsp c Hb HD | pn i rsp c w ws nxt Hb HD Hp | pn c Hb H1 H2 H3 H4 H5].
+  - apply S_A; try assumption. left; reflexivity.
+  - apply S_B; try assumption. eapply Rd_echo; [reflexivity | exact Hp].
+  - apply S_C; try assumption. eapply Rd_echo; [reflexivity | exact Hp].
+  - apply S_D1; assumption.
+  - apply S_D2; try assumption. eapply Rd_echo; [reflexivity | exact Hp].
+  - apply S_Ok; assumption.
+Qed.
+
+(* ---------------------------------------------------------------- the measure *)
+Definition cap : Z := Z.max (n_nak k) (n_ack k) + 2.
+Definition KK : Z := 3 * Z.max 2 cap + 4.
+Definition nr (pn : Z) (c : picc) : Z := if bn c =? pn then 0 else 1.
+Definition base_send (off i : Z) (c : picc) : Z :=
+  KK * (len cmd - off + len R + 2) + 3 * wtx_weight c + 3 * Z.max 0 (cap - i).
+Definition base_recv (i : Z) (rsp : bytes) (c : picc) : Z :=
+  KK * (len R - len rsp) + 3 * wtx_weight c + 3 * Z.max 0 (cap - i).
+Definition mu (p : pcd) (c : picc) : Z :=
+  match ph p with
+  | PSend off i d => base_send off i c + kind d + 2 * nr (pni p) c
+  | PRecv i d rsp => base_recv i rsp c + kind d + 2 * nr (pni p) c
+  | _ => 0
+  end.
+
+Lemma KK_ge : 10 <= KK. Proof. unfold KK. lia. Qed.
+Lemma KK_cap : 3 * cap + 4 <= KK. Proof. unfold KK. lia. Qed.
+Lemma nr_same pn c : bn c = pn -> nr pn c = 0.
+Proof. intro H. unfold nr. rewrite H, Z.eqb_refl. reflexivity. Qed.
+Lemma nr_le pn c : 0 <= nr pn c <= 1.
+Proof. unfold nr. destruct (bn c =? pn); lia. Qed.
+Lemma nr_flip pn c : bit pn -> bn c = flip pn -> nr pn c = 1.
+Proof. intros Hb H. unfold nr. rewrite H. pose proof (flip_neq pn Hb). destruct (flip pn =? pn) eqn:E; [lia|reflexivity]. Qed.
+
+(* ---------------------------------------------------------------- reader absorbs the card's answer *)
+Lemma rsp_len_R rsp T : rsp ++ T = R -> len R = len rsp + len T.
+Proof. intros <-. apply len_app. Qed.
+
+Definition ival (p : pcd) : Z := match ph p with PSend _ i _ => i | PRecv i _ _ => i | _ => 0 end.
+
+(* X1: the card has acknowledged the chained block at [off] *)
+Lemma absorb_B pn off i d c : bit pn -> 0 <= off < len cmd -> more_at k cmd off = true -> CardB pn off c ->
+  let p' := pcd_absorb k cmd (mkp pn (PSend off i d)) (ARx (last c)) in
+  Clean p' c /\ mu p' c <= base_send off i c /\ ival p' <= Z.max 1 i.
+Proof.
+  intros Hb Hoff Hm (Hbn & Hrx & Htx & Hex & Hem).
+  destruct (emitted_core _ _ Hem) as [[Hl Hp] | (w & ws & Hl & Hp)]; rewrite Hl; cbv zeta.
+  - rewrite send_rx_ack by assumption.
+    assert (Hlt : off + miu k < len cmd) by (unfold more_at in Hm; lia).
+    split; [|split; [|cbn [ival ph mkp]; lia]].
+    + apply C_A; [apply flip_bit, Hb | lia |].
+      unfold CardA. rewrite flip_flip by assumption. repeat split; assumption.
+    + unfold mu. cbn [ph pni mkp]. rewrite kind_iblock by (apply flip_bit, Hb).
+      pose proof (nr_le (flip pn) c). unfold base_send.
+      pose proof KK_cap. pose proof KK_ge.
+      assert (KK * 1 <= KK * miu k) by (apply Z.mul_le_mono_nonneg_l; lia).
+      replace (len cmd - (off + miu k) + len R + 2) with ((len cmd - off + len R + 2) - miu k) by lia.
+      rewrite Z.mul_sub_distr_l. lia.
+  - rewrite send_rx_wtx by assumption. split; [|split; [|cbn [ival ph mkp]; lia]].
+    + eapply C_B; try eassumption. repeat split; assumption.
+    + unfold mu. cbn [ph pni mkp]. rewrite kind_wtx, nr_same by assumption. lia.
+Qed.
+
+(* X2: the card has executed the command and sent the first response block *)
+Lemma absorb_C pn off i d c : bit pn -> 0 <= off < len cmd -> more_at k cmd off = false -> CardC pn c ->
+  let p' := pcd_absorb k cmd (mkp pn (PSend off i d)) (ARx (last c)) in
+  Clean p' c /\ mu p' c <= base_send off i c /\ ival p' <= Z.max 1 i.
+Proof.
+  intros Hb Hoff Hm (ib & rest & Hbn & Hrx & Hex & Hni & Htx & Hem).
+  destruct (emitted_core _ _ Hem) as [[Hl Hp] | (w & ws & Hl & Hp)]; rewrite Hl; cbv zeta.
+  - destruct (next_iblock_spec _ _ _ _ _ Hcmiu Hni) as (ch & chunk & Hch & -> & Hcr & Hch1 & _ & _).
+    rewrite send_rx_iblock by assumption.
+    destruct Hch as [-> | ->]; cbn [Z.eqb Pos.eqb].
+    + (* last response block *)
+      assert (Hre : rest = []) by (destruct rest; [reflexivity|]; assert (0 = 1) by (apply Hch1; discriminate); lia).
+      rewrite Hre in *. rewrite app_nil_r in Hcr. subst chunk. split; [|split; [|cbn [ival ph mkp]; lia]].
+      * apply C_Ok; try assumption; [apply flip_bit, Hb | rewrite flip_flip; assumption].
+      * unfold mu. cbn [ph pni mkp]. unfold base_send.
+        pose proof KK_ge. pose proof (wtx_weight_nonneg c). pose proof (len_nonneg R). nia.
+    + assert (Hr : rest <> []) by (apply Hch1; reflexivity). split; [|split; [|cbn [ival ph mkp]; lia]].
+      * apply C_D1; [apply flip_bit, Hb|]. unfold CardD1. rewrite flip_flip by assumption.
+        repeat split; try assumption; congruence.
+      * unfold mu. cbn [ph pni mkp]. rewrite kind_ack by (apply flip_bit, Hb).
+        pose proof (nr_le (flip pn) c). unfold base_send, base_recv.
+        pose proof KK_cap. pose proof KK_ge. pose proof (len_nonneg chunk).
+        rewrite (rsp_len_R _ _ Hcr).
+        assert (0 <= KK * (len cmd - off + len chunk)) by (apply Z.mul_nonneg_nonneg; lia).
+        replace (len cmd - off + (len chunk + len rest) + 2) with ((len cmd - off + len chunk) + (len chunk + len rest - len chunk) + 2) by lia.
+        rewrite !Z.mul_add_distr_l. lia.
+  - rewrite send_rx_wtx by assumption. split; [|split; [|cbn [ival ph mkp]; lia]].
+    + eapply C_C; try eassumption. exists ib, rest; repeat split; assumption.
+    + unfold mu. cbn [ph pni mkp]. rewrite kind_wtx, nr_same by assumption. lia.
+Qed.
+
+(* X3: the card has answered the R(ACK) with the next response block *)
+Lemma absorb_D2 pn i d rsp c : bit pn -> CardD2 pn rsp c ->
+  let p' := pcd_absorb k cmd (mkp pn (PRecv i d rsp)) (ARx (last c)) in
+  Clean p' c /\ mu p' c <= base_recv i rsp c /\ ival p' <= Z.max 1 i.
+Proof.
+  intros Hb (T & ib & rest & Hbn & HT & HR & Hni & Htx & Hrx & Hex & Hem).
+  destruct (emitted_core _ _ Hem) as [[Hl Hp] | (w & ws & Hl & Hp)]; rewrite Hl; cbv zeta.
+  - destruct (next_iblock_spec _ _ _ _ _ Hcmiu Hni) as (ch & chunk & Hch & -> & Hcr & Hch1 & Hne & _).
+    rewrite recv_rx_iblock by assumption.
+    assert (Hcn : 0 < len chunk) by (apply nonnil_len, Hne, HT).
+    destruct Hch as [-> | ->]; cbn [Z.eqb Pos.eqb].
+    + assert (Hre : rest = []) by (destruct rest; [reflexivity|]; assert (0 = 1) by (apply Hch1; discriminate); lia).
+      rewrite Hre in *. rewrite app_nil_r in Hcr. subst chunk. rewrite HR. split; [|split; [|cbn [ival ph mkp]; lia]].
+      * apply C_Ok; try assumption; [apply flip_bit, Hb | rewrite flip_flip; assumption].
+      * unfold mu. cbn [ph pni mkp]. unfold base_recv.
+        pose proof KK_ge. pose proof (wtx_weight_nonneg c). rewrite (rsp_len_R _ _ HR). nia.
+    + assert (Hr : rest <> []) by (apply Hch1; reflexivity). split; [|split; [|cbn [ival ph mkp]; lia]].
+      * apply C_D1; [apply flip_bit, Hb|]. unfold CardD1. rewrite flip_flip by assumption.
+        repeat split; try assumption; [congruence|]. rewrite <- app_assoc, Htx, Hcr. exact HR.
+      * unfold mu. cbn [ph pni mkp]. rewrite kind_ack by (apply flip_bit, Hb).
+        pose proof (nr_le (flip pn) c). unfold base_recv.
+        pose proof KK_cap. pose proof KK_ge. rewrite len_app.
+        assert (KK * 1 <= KK * len chunk) by (apply Z.mul_le_mono_nonneg_l; lia).
+        replace (len R - (len rsp + len chunk)) with ((len R - len rsp) - len chunk) by lia.
+        rewrite Z.mul_sub_distr_l. lia.
+  - rewrite recv_rx_wtx by assumption. split; [|split; [|cbn [ival ph mkp]; lia]].
+    + eapply C_D2; try eassumption. exists T, ib, rest; repeat split; assumption.
+    + unfold mu. cbn [ph pni mkp]. rewrite kind_wtx, nr_same by assumption. lia.
+Qed.
+
+(* ---------------------------------------------------------------- reader sees a timeout / transmission error *)
+Definition exec_ok (c : picc) : Prop := execs c = e0 \/ execs c = e0 ++ [cmd].
+
+Lemma fault_send pn off i d c a :
+  a = ATimeout \/ a = ATxErr -> bit pn -> exec_ok c -> off < len cmd ->
+  (i <= n_nak k -> Sync (mkp pn (PSend off (i + 1) [Z.lor 178 pn])) c) ->
+  let p' := pcd_absorb k cmd (mkp pn (PSend off i d)) a in
+  Sync p' c /\ mu p' c <= base_send off i c - 2 + 2 * nr pn c.
+Proof.
+  intros Ha Hb He Hoff HS. cbv zeta. rewrite send_timeout by assumption.
+  destruct (i <=? n_nak k) eqn:Ei.
+  - split; [apply HS; lia|]. unfold mu. cbn [ph pni mkp]. rewrite kind_nak by assumption.
+    unfold base_send, cap. lia.
+  - split; [apply S_Err, He|]. unfold mu. cbn [ph pni mkp tagerr]. unfold base_send.
+    pose proof KK_ge. pose proof (wtx_weight_nonneg c). pose proof (nr_le pn c). pose proof (len_nonneg R).
+    assert (KK * 2 <= KK * (len cmd - off + len R + 2)) by (apply Z.mul_le_mono_nonneg_l; lia). lia.
+Qed.
+
+Lemma fault_recv pn i d rsp c a :
+  a = ATimeout \/ a = ATxErr -> bit pn -> exec_ok c -> len rsp < len R ->
+  (i <= n_ack k -> Sync (mkp pn (PRecv (i + 1) [Z.lor 162 pn] rsp)) c) ->
+  let p' := pcd_absorb k cmd (mkp pn (PRecv i d rsp)) a in
+  Sync p' c /\ mu p' c <= base_recv i rsp c - 2 + 2 * nr pn c.
+Proof.
+  intros Ha Hb He Hlen HS. cbv zeta. rewrite recv_timeout by assumption.
+  destruct (i <=? n_ack k) eqn:Ei.
+  - split; [apply HS; lia|]. unfold mu. cbn [ph pni mkp]. rewrite kind_ack by assumption.
+    unfold base_recv, cap. lia.
+  - split; [apply S_Err, He|]. unfold mu. cbn [ph pni mkp tagerr]. unfold base_recv.
+    pose proof KK_ge. pose proof (wtx_weight_nonneg c). pose proof (nr_le pn c).
+    assert (KK * 1 <= KK * (len R - len rsp)) by (apply Z.mul_le_mono_nonneg_l; lia). lia.
+Qed.
+
+Lemma base_send_mono off i c c' : wtx_weight c' <= wtx_weight c -> base_send off i c' <= base_send off i c.
+Proof. unfold base_send. lia. Qed.
+Lemma base_recv_mono i rsp c c' : wtx_weight c' <= wtx_weight c -> base_recv i rsp c' <= base_recv i rsp c.
+Proof. unfold base_recv. lia. Qed.
+
+(* ---------------------------------------------------------------- the card absorbs the reader's block *)
+Lemma pcb_i_chain pn : bit pn -> Z.land (Z.lor 18 pn) 238 = 2 /\ Z.land (Z.lor 18 pn) 16 <> 0.
+Proof. intros [-> | ->]; split; cbv; congruence. Qed.
+Lemma pcb_i_final pn : bit pn -> Z.land (Z.lor 2 pn) 238 = 2 /\ Z.land (Z.lor 2 pn) 16 = 0.
+Proof. intros [-> | ->]; split; reflexivity. Qed.
+Lemma pcb_nak pn : bit pn -> Z.land (Z.lor 178 pn) 238 = 162 /\ Z.land (Z.lor 178 pn) 1 = pn /\ Z.land (Z.lor 178 pn) 16 <> 0.
+Proof. intros [-> | ->]; repeat split; cbv; congruence. Qed.
+Lemma pcb_ack pn : bit pn -> Z.land (Z.lor 162 pn) 238 = 162 /\ Z.land (Z.lor 162 pn) 1 = pn /\ Z.land (Z.lor 162 pn) 16 = 0.
+Proof. intros [-> | ->]; repeat split; reflexivity. Qed.
+
+Lemma card_A_iblock pn off c c' r : bit pn -> 0 <= off < len cmd -> CardA pn off c ->
+  picc_absorb app kc c (iblock k cmd pn off) = (c', r) ->
+  r = Some (last c') /\ wtx_weight c' <= wtx_weight c /\
+  (if more_at k cmd off then CardB pn off c' else CardC pn c').
+Proof.
+  intros Hb Hoff (Hbn & Hp & Hrx & Htx & Hex). unfold iblock, pfb_at.
+  assert (Hsl : len (slice cmd off (off + miu k)) + 3 <= cfsc kc)
+    by (pose proof (len_slice_le cmd off (miu k)); lia).
+  assert (Hw0 : forall c0, pend c0 = None -> plan c0 = plan c -> wtx_weight c0 = wtx_weight c)
+    by (intros c0 H1 H2; unfold wtx_weight; rewrite H1, H2, Hp; reflexivity).
+  destruct (more_at k cmd off) eqn:Hm.
+  - destruct (pcb_i_chain pn Hb) as [H1 H2].
+    rewrite picc_iblock_chained by assumption. intro H.
+    apply picc_emit_spec in H; [|reflexivity]. destruct H as (-> & (Hc1 & Hc2 & Hc3 & Hc4) & Hem & Hw).
+    cbn [bn rxbuf txrest execs] in Hc1, Hc2, Hc3, Hc4.
+    match type of Hw with _ <= wtx_weight ?x => rewrite (Hw0 x eq_refl eq_refl) in Hw end.
+    split; [reflexivity|]. split; [exact Hw|].
+    unfold CardB. rewrite Hbn, flip_flip in Hc1, Hem by assumption.
+    repeat split; try congruence.
+    rewrite Hc2, Hrx. apply take_slice; lia.
+  - destruct (pcb_i_final pn Hb) as [H1 H2].
+    rewrite picc_iblock_final by assumption. cbv zeta.
+    assert (Hap : rxbuf c ++ slice cmd off (off + miu k) = cmd).
+    { rewrite Hrx, take_slice by lia. apply take_all. unfold more_at in Hm. lia. }
+    rewrite Hap, Hex, Hbn, flip_flip by assumption. fold R.
+    destruct (next_iblock kc pn R) as [ib rest] eqn:Hni. intro H.
+    apply picc_emit_spec in H; [|reflexivity]. destruct H as (-> & (Hc1 & Hc2 & Hc3 & Hc4) & Hem & Hw).
+    cbn [bn rxbuf txrest execs] in Hc1, Hc2, Hc3, Hc4.
+    match type of Hw with _ <= wtx_weight ?x => rewrite (Hw0 x eq_refl eq_refl) in Hw end.
+    split; [reflexivity|]. split; [exact Hw|].
+    exists ib, rest. repeat split; assumption.
+Qed.
+
+Lemma card_A_nak pn off c : bit pn -> CardA pn off c ->
+  exists c', picc_absorb app kc c [Z.lor 178 pn] = (c', Some [Z.lor 162 (flip pn)]) /\
+             CardA pn off c' /\ wtx_weight c' = wtx_weight c.
+Proof.
+  intros Hb (Hbn & Hp & Hrx & Htx & Hex). destruct (pcb_nak pn Hb) as (H1 & H2 & H3).
+  rewrite picc_nak_other; try assumption; try lia.
+  - rewrite Hbn. eexists. split; [reflexivity|]. split.
+    + unfold CardA. cbn [bn pend rxbuf txrest execs]. repeat split; assumption.
+    + unfold wtx_weight. cbn [pend plan]. rewrite Hp. reflexivity.
+  - rewrite H2, Hbn. intro E. symmetry in E. revert E. apply flip_neq, Hb.
+Qed.
+
+Lemma card_retry pn blk c pcb : bit pn -> emitted blk c -> blk <> [] -> bn c = pn ->
+  pcb = Z.lor 178 pn \/ pcb = Z.lor 162 pn ->
+  picc_absorb app kc c [pcb] = (c, Some (last c)).
+Proof.
+  intros Hb Hem Hne Hbn Hpcb. apply picc_rblock_same; try lia.
+  - destruct Hpcb as [-> | ->]; [apply (pcb_nak pn Hb) | apply (pcb_ack pn Hb)].
+  - rewrite Hbn. destruct Hpcb as [-> | ->]; [apply (pcb_nak pn Hb) | apply (pcb_ack pn Hb)].
+  - eapply emitted_last_nonnil; eassumption.
+Qed.
+
+Lemma card_D1_ack pn rsp c c' r : bit pn -> CardD1 pn rsp c ->
+  picc_absorb app kc c [Z.lor 162 pn] = (c', r) ->
+  r = Some (last c') /\ wtx_weight c' <= wtx_weight c /\ CardD2 pn rsp c'.
+Proof.
+  intros Hb (Hbn & Hp & Htx & HR & Hrx & Hex). destruct (pcb_ack pn Hb) as (H1 & H2 & H3).
+  rewrite picc_ack_other; try assumption; try lia.
+  - rewrite Hbn, flip_flip by assumption.
+    destruct (next_iblock kc pn (txrest c)) as [ib rest] eqn:Hni. intro H.
+    apply picc_emit_spec in H; [|reflexivity]. destruct H as (-> & (Hc1 & Hc2 & Hc3 & Hc4) & Hem & Hw).
+    cbn [bn rxbuf txrest execs] in Hc1, Hc2, Hc3, Hc4.
+    split; [reflexivity|]. split.
+    + unfold wtx_weight in *. cbn [pend plan] in Hw. rewrite Hp. exact Hw.
+    + exists (txrest c), ib, rest. repeat split; try assumption; congruence.
+  - rewrite H2, Hbn. intro E. symmetry in E. revert E. apply flip_neq, Hb.
+Qed.
+
+Lemma CardB_core pn off c c' : CardB pn off c -> same_core c c' -> emitted [Z.lor 162 pn] c' -> CardB pn off c'.
+Proof. intros (H1 & H2 & H3 & H4 & _) (E1 & E2 & E3 & E4) Hem. unfold CardB. repeat split; congruence. Qed.
+Lemma next_iblock_nonnil b data ib rest : next_iblock kc b data = (ib, rest) -> ib <> [].
+Proof. unfold next_iblock. intro H. inversion H. discriminate. Qed.
+
+(* the card has answered already; the reader sends its retry block or the S(WTX) echo *)
+Lemma card_answered pn blk c d retry c' r : bit pn -> emitted blk c -> blk <> [] -> bn c = pn ->
+  retry = [Z.lor 178 pn] \/ retry = [Z.lor 162 pn] -> rdata retry c d ->
+  picc_absorb app kc c d = (c', r) ->
+  r = Some (last c') /\ same_core c c' /\ emitted blk c' /\ wtx_weight c' <= wtx_weight c /\
+  (kind d = 0 -> wtx_weight c' < wtx_weight c).
+Proof.
+  intros Hb Hem Hne Hbn Hre [Hd | w ws nxt Hd Hp] H.
+  - assert (Hpcb : exists pcb, d = [pcb] /\ (pcb = Z.lor 178 pn \/ pcb = Z.lor 162 pn))
+      by (destruct Hre as [-> | ->]; eexists; split; eauto).
+    destruct Hpcb as (pcb & -> & Hpcb).
+    rewrite (card_retry pn blk c pcb) in H by assumption. inversion H; subst c' r.
+    split; [reflexivity|]. split; [repeat split|]. split; [assumption|]. split; [lia|].
+    intro Hk. exfalso. destruct Hpcb as [-> | ->]; [rewrite kind_nak in Hk by assumption | rewrite kind_ack in Hk by assumption]; lia.
+  - subst d. pose proof (emitted_pend _ _ _ _ _ Hem Hp) as ->.
+    apply (picc_wtx_response app kc c w ws blk c' r Hp) in H; [|lia].
+    destruct H as (-> & Hc & Hem' & Hw). repeat split; try assumption; try apply Hc; lia.
+Qed.
+
+Lemma CardB_step pn off c d c' r : bit pn -> CardB pn off c -> rdata [Z.lor 178 pn] c d ->
+  picc_absorb app kc c d = (c', r) ->
+  r = Some (last c') /\ CardB pn off c' /\ wtx_weight c' <= wtx_weight c /\ (kind d = 0 -> wtx_weight c' < wtx_weight c).
+Proof.
+  intros Hb (H1 & H2 & H3 & H4 & Hem) Hd H.
+  eapply card_answered in H; try eassumption; [|discriminate|left; reflexivity].
+  destruct H as (-> & (E1 & E2 & E3 & E4) & Hem' & Hw & Hw').
+  split; [reflexivity|]. split; [|split; assumption]. unfold CardB. repeat split; congruence.
+Qed.
+
+Lemma CardC_step pn c d c' r : bit pn -> CardC pn c -> rdata [Z.lor 178 pn] c d ->
+  picc_absorb app kc c d = (c', r) ->
+  r = Some (last c') /\ CardC pn c' /\ wtx_weight c' <= wtx_weight c /\ (kind d = 0 -> wtx_weight c' < wtx_weight c).
+Proof.
+  intros Hb (ib & rest & H1 & H2 & H3 & Hni & H4 & Hem) Hd H.
+  eapply card_answered in H; try eassumption; [|eapply next_iblock_nonnil; eassumption|left; reflexivity].
+  destruct H as (-> & (E1 & E2 & E3 & E4) & Hem' & Hw & Hw').
+  split; [reflexivity|]. split; [|split; assumption]. exists ib, rest. repeat split; congruence.
+Qed.
+
+Lemma CardD2_step pn rsp c d c' r : bit pn -> CardD2 pn rsp c -> rdata [Z.lor 162 pn] c d ->
+  picc_absorb app kc c d = (c', r) ->
+  r = Some (last c') /\ CardD2 pn rsp c' /\ wtx_weight c' <= wtx_weight c /\ (kind d = 0 -> wtx_weight c' < wtx_weight c).
+Proof.
+  intros Hb (T & ib & rest & H1 & HT & HR & Hni & H4 & H5 & H6 & Hem) Hd H.
+  eapply card_answered in H; try eassumption; [|eapply next_iblock_nonnil; eassumption|right; reflexivity].
+  destruct H as (-> & (E1 & E2 & E3 & E4) & Hem' & Hw & Hw').
+  split; [reflexivity|]. split; [|split; assumption]. exists T, ib, rest. repeat split; congruence.
+Qed.
+
+Lemma CardB_exec pn off c : CardB pn off c -> exec_ok c.
+Proof. intros (_ & _ & _ & H & _). left; exact H. Qed.
+Lemma CardC_exec pn c : CardC pn c -> exec_ok c.
+Proof. intros (ib & rest & _ & _ & H & _). right; exact H. Qed.
+Lemma CardD2_exec pn rsp c : CardD2 pn rsp c -> exec_ok c.
+Proof. intros (T & ib & rest & _ & _ & _ & _ & _ & _ & H & _). right; exact H. Qed.
+Lemma CardD2_len pn rsp c : CardD2 pn rsp c -> len rsp < len R.
+Proof. intros (T & ib & rest & _ & HT & HR & _). rewrite (rsp_len_R _ _ HR). pose proof (nonnil_len T HT). lia. Qed.
+Lemma CardD1_len pn rsp c : CardD1 pn rsp c -> len rsp < len R.
+Proof. intros (_ & _ & HT & HR & _). rewrite (rsp_len_R _ _ HR). pose proof (nonnil_len _ HT). lia. Qed.
+
+(* ---------------------------------------------------------------- one round, any fate pair *)
+Lemma mu_send pn off i d c : mu (mkp pn (PSend off i d)) c = base_send off i c + kind d + 2 * nr pn c.
+Proof. reflexivity. Qed.
+Lemma mu_recv pn i d rsp c : mu (mkp pn (PRecv i d rsp)) c = base_recv i rsp c + kind d + 2 * nr pn c.
+Proof. reflexivity. Qed.
+
+Lemma round_sync p c ff : Sync p c -> is_done p = false ->
+  let '(p', c') := round app k kc cmd (p, c) ff in Sync p' c' /\ mu p' c' + 1 <= mu p c.
+Proof.
+  intros HS Hd. unfold round. rewrite Hd. unfold air. destruct ff as [f1 f2]. cbn [fst snd].
+  destruct HS as [pn off i d c Hb Hoff Hdd HA | pn off i d c Hb Hoff Hm HB Hrd | pn off i d c Hb Hoff Hm HC Hrd
+                 | pn i rsp c Hb HD | pn i d rsp c Hb HD Hrd | pn c | pn e c]; try discriminate;
+    cbn [pcd_emit ph mkp].
+  - (* A *)
+    assert (HeA : exec_ok c) by (left; apply HA).
+    assert (HnrA : nr pn c = 1) by (apply nr_flip; [assumption | apply HA]).
+    assert (Hfault : forall a, a = ATimeout \/ a = ATxErr ->
+              Sync (pcd_absorb k cmd (mkp pn (PSend off i d)) a) c /\
+              mu (pcd_absorb k cmd (mkp pn (PSend off i d)) a) c + 1 <= mu (mkp pn (PSend off i d)) c).
+    { intros a Ha. destruct (fault_send pn off i d c a Ha Hb HeA (proj2 Hoff)) as [H1 H2].
+      - intro Hi. apply S_A; try assumption. right. split; [reflexivity | lia].
+      - split; [exact H1|]. rewrite mu_send. pose proof (kind_le d). lia. }
+    destruct f1; [| apply Hfault; left; reflexivity | apply Hfault; left; reflexivity].
+    destruct Hdd as [-> | [-> Hi]].
+    + (* the I-block reaches the card *)
+      destruct (picc_absorb app kc c (iblock k cmd pn off)) as [c' r] eqn:E.
+      apply (card_A_iblock pn off c c' r Hb Hoff HA) in E. destruct E as (-> & Hw & HC').
+      rewrite mu_send, kind_iblock, HnrA by assumption.
+      pose proof (base_send_mono off i c c' Hw) as Hbm.
+      destruct (more_at k cmd off) eqn:Hm.
+      * assert (Hnr' : nr pn c' = 0) by (apply nr_same, HC').
+        destruct f2.
+        -- destruct (absorb_B pn off i (iblock k cmd pn off) c' Hb Hoff Hm HC') as [H1 H2]. split; [apply Clean_Sync, H1 | lia].
+        -- destruct (fault_send pn off i (iblock k cmd pn off) c' ATimeout (or_introl eq_refl) Hb (CardB_exec _ _ _ HC') (proj2 Hoff)) as [H1 H2].
+           ++ intros _. apply S_B; try assumption. apply Rd_retry; reflexivity.
+           ++ split; [exact H1 | lia].
+        -- destruct (fault_send pn off i (iblock k cmd pn off) c' ATxErr (or_intror eq_refl) Hb (CardB_exec _ _ _ HC') (proj2 Hoff)) as [H1 H2].
+           ++ intros _. apply S_B; try assumption. apply Rd_retry; reflexivity.
+           ++ split; [exact H1 | lia].
+      * assert (Hnr' : nr pn c' = 0) by (apply nr_same; destruct HC' as (? & ? & ? & _); assumption).
+        destruct f2.
+        -- destruct (absorb_C pn off i (iblock k cmd pn off) c' Hb Hoff Hm HC') as [H1 H2]. split; [apply Clean_Sync, H1 | lia].
+        -- destruct (fault_send pn off i (iblock k cmd pn off) c' ATimeout (or_introl eq_refl) Hb (CardC_exec _ _ HC') (proj2 Hoff)) as [H1 H2].
+           ++ intros _. apply S_C; try assumption. apply Rd_retry; reflexivity.
+           ++ split; [exact H1 | lia].
+        -- destruct (fault_send pn off i (iblock k cmd pn off) c' ATxErr (or_intror eq_refl) Hb (CardC_exec _ _ HC') (proj2 Hoff)) as [H1 H2].
+           ++ intros _. apply S_C; try assumption. apply Rd_retry; reflexivity.
+           ++ split; [exact H1 | lia].
+    + (* R(NAK) reaches a card that has not seen the block: rule 12 *)
+      destruct (card_A_nak pn off c Hb HA) as (c' & -> & HA' & Hw).
+      assert (HeA' : exec_ok c') by (left; apply HA').
+      assert (HnrA' : nr pn c' = 1) by (apply nr_flip; [assumption | apply HA']).
+      rewrite mu_send, kind_nak, HnrA by assumption.
+      assert (Hbm : base_send off i c' = base_send off i c) by (unfold base_send; rewrite Hw; reflexivity).
+      destruct f2.
+      * rewrite send_rx_rack_other by assumption.
+        destruct (if fix_rack k then i <=? n_nak k + 1 else true).
+        -- split; [apply S_A; try assumption; left; reflexivity|].
+           rewrite mu_send, kind_iblock, HnrA' by assumption. unfold base_send in *. rewrite Hw. unfold cap. lia.
+        -- split; [apply S_Err, HeA'|]. unfold mu. cbn [ph mkp tagerr]. unfold base_send.
+           pose proof KK_ge. pose proof (wtx_weight_nonneg c). pose proof (len_nonneg R).
+           assert (KK * 2 <= KK * (len cmd - off + len R + 2)) by (apply Z.mul_le_mono_nonneg_l; lia). lia.
+      * destruct (fault_send pn off i [Z.lor 178 pn] c' ATimeout (or_introl eq_refl) Hb HeA' (proj2 Hoff)) as [H1 H2].
+        -- intro Hi'. apply S_A; try assumption. right. split; [reflexivity | lia].
+        -- split; [exact H1 | lia].
+      * destruct (fault_send pn off i [Z.lor 178 pn] c' ATxErr (or_intror eq_refl) Hb HeA' (proj2 Hoff)) as [H1 H2].
+        -- intro Hi'. apply S_A; try assumption. right. split; [reflexivity | lia].
+        -- split; [exact H1 | lia].
+  - (* B *)
+    assert (Hnr : nr pn c = 0) by (apply nr_same, HB).
+    rewrite mu_send, Hnr.
+    assert (Hfault : forall a c', a = ATimeout \/ a = ATxErr -> CardB pn off c' -> wtx_weight c' <= wtx_weight c ->
+              Sync (pcd_absorb k cmd (mkp pn (PSend off i d)) a) c' /\
+              mu (pcd_absorb k cmd (mkp pn (PSend off i d)) a) c' + 1 <= base_send off i c + kind d + 2 * 0).
+    { intros a c' Ha HB' Hw. destruct (fault_send pn off i d c' a Ha Hb (CardB_exec _ _ _ HB') (proj2 Hoff)) as [H1 H2].
+      - intros _. apply S_B; try assumption. apply Rd_retry; reflexivity.
+      - split; [exact H1|]. pose proof (base_send_mono off i c c' Hw). pose proof (kind_le d).
+        rewrite (nr_same pn c') in H2 by apply HB'. lia. }
+    destruct f1; [| apply Hfault; [left; reflexivity | assumption | lia] | apply Hfault; [left; reflexivity | assumption | lia]].
+    destruct (picc_absorb app kc c d) as [c' r] eqn:E.
+    apply (CardB_step pn off c d c' r Hb HB Hrd) in E. destruct E as (-> & HB' & Hw & Hw').
+    destruct f2; [| apply Hfault; [left; reflexivity | assumption | assumption] | apply Hfault; [right; reflexivity | assumption | assumption]].
+    destruct (absorb_B pn off i d c' Hb Hoff Hm HB') as [H1 H2]. split; [apply Clean_Sync, H1|].
+    pose proof (base_send_mono off i c c' Hw). pose proof (kind_le d).
+    destruct (Z.eq_dec (kind d) 0) as [Hk | Hk]; [specialize (Hw' Hk); unfold base_send in *; lia | lia].
+  - (* C *)
+    assert (Hnr : nr pn c = 0) by (apply nr_same; destruct HC as (? & ? & ? & _); assumption).
+    rewrite mu_send, Hnr.
+    assert (Hfault : forall a c', a = ATimeout \/ a = ATxErr -> CardC pn c' -> wtx_weight c' <= wtx_weight c ->
+              Sync (pcd_absorb k cmd (mkp pn (PSend off i d)) a) c' /\
+              mu (pcd_absorb k cmd (mkp pn (PSend off i d)) a) c' + 1 <= base_send off i c + kind d + 2 * 0).
+    { intros a c' Ha HC' Hw. destruct (fault_send pn off i d c' a Ha Hb (CardC_exec _ _ HC') (proj2 Hoff)) as [H1 H2].
+      - intros _. apply S_C; try assumption. apply Rd_retry; reflexivity.
+      - split; [exact H1|]. pose proof (base_send_mono off i c c' Hw). pose proof (kind_le d).
+        rewrite (nr_same pn c') in H2 by (destruct HC' as (? & ? & ? & _); assumption). lia. }
+    destruct f1; [| apply Hfault; [left; reflexivity | assumption | lia] | apply Hfault; [left; reflexivity | assumption | lia]].
+    destruct (picc_absorb app kc c d) as [c' r] eqn:E.
+    apply (CardC_step pn c d c' r Hb HC Hrd) in E. destruct E as (-> & HC' & Hw & Hw').
+    destruct f2; [| apply Hfault; [left; reflexivity | assumption | assumption] | apply Hfault; [right; reflexivity | assumption | assumption]].
+    destruct (absorb_C pn off i d c' Hb Hoff Hm HC') as [H1 H2]. split; [apply Clean_Sync, H1|].
+    pose proof (base_send_mono off i c c' Hw). pose proof (kind_le d).
+    destruct (Z.eq_dec (kind d) 0) as [Hk | Hk]; [specialize (Hw' Hk); unfold base_send in *; lia | lia].
+  - (* D1 *)
+    assert (HeD : exec_ok c) by (right; apply HD).
+    assert (Hnr : nr pn c = 1) by (apply nr_flip; [assumption | apply HD]).
+    rewrite mu_recv, kind_ack, Hnr by assumption.
+    assert (Hfault1 : forall a, a = ATimeout \/ a = ATxErr ->
+              Sync (pcd_absorb k cmd (mkp pn (PRecv i [Z.lor 162 pn] rsp)) a) c /\
+              mu (pcd_absorb k cmd (mkp pn (PRecv i [Z.lor 162 pn] rsp)) a) c + 1 <= base_recv i rsp c + 1 + 2 * 1).
+    { intros a Ha. destruct (fault_recv pn i [Z.lor 162 pn] rsp c a Ha Hb HeD (CardD1_len _ _ _ HD)) as [H1 H2].
+      - intros _. apply S_D1; assumption.
+      - split; [exact H1|]. lia. }
+    destruct f1; [| apply Hfault1; left; reflexivity | apply Hfault1; left; reflexivity].
+    destruct (picc_absorb app kc c [Z.lor 162 pn]) as [c' r] eqn:E.
+    apply (card_D1_ack pn rsp c c' r Hb HD) in E. destruct E as (-> & Hw & HD').
+    pose proof (base_recv_mono i rsp c c' Hw) as Hbm.
+    assert (Hnr' : nr pn c' = 0) by (apply nr_same; destruct HD' as (? & ? & ? & ? & _); assumption).
+    assert (Hfault2 : forall a, a = ATimeout \/ a = ATxErr ->
+              Sync (pcd_absorb k cmd (mkp pn (PRecv i [Z.lor 162 pn] rsp)) a) c' /\
+              mu (pcd_absorb k cmd (mkp pn (PRecv i [Z.lor 162 pn] rsp)) a) c' + 1 <= base_recv i rsp c + 1 + 2 * 1).
+    { intros a Ha. destruct (fault_recv pn i [Z.lor 162 pn] rsp c' a Ha Hb (CardD2_exec _ _ _ HD') (CardD2_len _ _ _ HD')) as [H1 H2].
+      - intros _. apply S_D2; try assumption. apply Rd_retry; reflexivity.
+      - split; [exact H1|]. lia. }
+    destruct f2; [| apply Hfault2; left; reflexivity | apply Hfault2; right; reflexivity].
+    destruct (absorb_D2 pn i [Z.lor 162 pn] rsp c' Hb HD') as [H1 H2]. split; [apply Clean_Sync, H1 | lia].
+  - (* D2 *)
+    assert (Hnr : nr pn c = 0) by (apply nr_same; destruct HD as (? & ? & ? & ? & _); assumption).
+    rewrite mu_recv, Hnr.
+    assert (Hfault : forall a c', a = ATimeout \/ a = ATxErr -> CardD2 pn rsp c' -> wtx_weight c' <= wtx_weight c ->
+              Sync (pcd_absorb k cmd (mkp pn (PRecv i d rsp)) a) c' /\
+              mu (pcd_absorb k cmd (mkp pn (PRecv i d rsp)) a) c' + 1 <= base_recv i rsp c + kind d + 2 * 0).
+    { intros a c' Ha HD' Hw. destruct (fault_recv pn i d rsp c' a Ha Hb (CardD2_exec _ _ _ HD') (CardD2_len _ _ _ HD')) as [H1 H2].
+      - intros _. apply S_D2; try assumption. apply Rd_retry; reflexivity.
+      - split; [exact H1|]. pose proof (base_recv_mono i rsp c c' Hw). pose proof (kind_le d).
+        rewrite (nr_same pn c') in H2 by (destruct HD' as (? & ? & ? & ? & _); assumption). lia. }
+    destruct f1; [| apply Hfault; [left; reflexivity | assumption | lia] | apply Hfault; [left; reflexivity | assumption | lia]].
+    destruct (picc_absorb app kc c d) as [c' r] eqn:E.
+    apply (CardD2_step pn rsp c d c' r Hb HD Hrd) in E. destruct E as (-> & HD' & Hw & Hw').
+    destruct f2; [| apply Hfault; [left; reflexivity | assumption | assumption] | apply Hfault; [right; reflexivity | assumption | assumption]].
+    destruct (absorb_D2 pn i d rsp c' Hb HD') as [H1 H2]. split; [apply Clean_Sync, H1|].
+    pose proof (base_recv_mono i rsp c c' Hw). pose proof (kind_le d).
+    destruct (Z.eq_dec (kind d) 0) as [Hk | Hk]; [specialize (Hw' Hk); unfold base_recv in *; lia | lia].
+Qed.
+
+(* ---------------------------------------------------------------- one fault-free round *)
+Lemma round_clean p c : Clean p c -> is_done p = false ->
+  let '(p', c') := round app k kc cmd (p, c) (FD, FD) in Clean p' c'.
+Proof.
+  intros HC Hd. unfold round. rewrite Hd. unfold air. cbn [fst snd].
+  destruct HC as [pn off i c Hb Ho HA | pn off i c w ws nxt Hb Ho Hm HB Hp | pn off i c w ws nxt Hb Ho Hm HC Hp
+                 | pn i rsp c Hb HD | pn i rsp c w ws nxt Hb HD Hp | pn c]; try discriminate;
+    cbn [pcd_emit ph mkp].
+  - destruct (picc_absorb app kc c (iblock k cmd pn off)) as [c' r] eqn:E.
+    apply (card_A_iblock pn off c c' r Hb Ho HA) in E. destruct E as (-> & Hw & HC').
+    destruct (more_at k cmd off) eqn:Hm; [apply absorb_B | apply absorb_C]; assumption.
+  - destruct (picc_absorb app kc c [242; w]) as [c' r] eqn:E.
+    apply (CardB_step pn off c _ c' r Hb HB (Rd_echo _ _ _ w ws nxt eq_refl Hp)) in E.
+    destruct E as (-> & HB' & _). apply absorb_B; assumption.
+  - destruct (picc_absorb app kc c [242; w]) as [c' r] eqn:E.
+    apply (CardC_step pn c _ c' r Hb HC (Rd_echo _ _ _ w ws nxt eq_refl Hp)) in E.
+    destruct E as (-> & HC' & _). apply absorb_C; assumption.
+  - destruct (picc_absorb app kc c [Z.lor 162 pn]) as [c' r] eqn:E.
+    apply (card_D1_ack pn rsp c c' r Hb HD) in E. destruct E as (-> & _ & HD').
+    apply absorb_D2; assumption.
+  - destruct (picc_absorb app kc c [242; w]) as [c' r] eqn:E.
+    apply (CardD2_step pn rsp c _ c' r Hb HD (Rd_echo _ _ _ w ws nxt eq_refl Hp)) in E.
+    destruct E as (-> & HD' & _). apply absorb_D2; assumption.
+Qed.
+
+(* ---------------------------------------------------------------- facts about related states *)
+Lemma Sync_exec p c : Sync p c -> exec_ok c.
+Proof.
+  intro H. destruct H as [pn off i d c Hb Hoff Hdd HA | pn off i d c Hb Hoff Hm HB Hrd | pn off i d c Hb Hoff Hm HC Hrd
+                         | pn i rsp c Hb HD | pn i d rsp c Hb HD Hrd | pn c Hb H1 H2 H3 H4 H5 | pn e c He].
+  - left; apply HA.
+  - eapply CardB_exec; eassumption.
+  - eapply CardC_exec; eassumption.
+  - right; apply HD.
+  - eapply CardD2_exec; eassumption.
+  - right; assumption.
+  - assumption.
+Qed.
+
+Lemma mu_pos p c : Sync p c -> is_done p = false -> 1 <= mu p c.
+Proof.
+  intros H Hd. pose proof KK_ge.
+  destruct H as [pn off i d c Hb Hoff Hdd HA | pn off i d c Hb Hoff Hm HB Hrd | pn off i d c Hb Hoff Hm HC Hrd
+                | pn i rsp c Hb HD | pn i d rsp c Hb HD Hrd | pn c | pn e c]; try discriminate.
+  1-3: rewrite mu_send; unfold base_send; pose proof (kind_le d); pose proof (nr_le pn c);
+       pose proof (wtx_weight_nonneg c); pose proof (len_nonneg R);
+       assert (KK * 2 <= KK * (len cmd - off + len R + 2)) by (apply Z.mul_le_mono_nonneg_l; lia); lia.
+  - rewrite mu_recv; unfold base_recv. pose proof (kind_le [Z.lor 162 pn]). pose proof (nr_le pn c).
+    pose proof (wtx_weight_nonneg c). pose proof (CardD1_len _ _ _ HD).
+    assert (KK * 1 <= KK * (len R - len rsp)) by (apply Z.mul_le_mono_nonneg_l; lia). lia.
+  - rewrite mu_recv; unfold base_recv. pose proof (kind_le d). pose proof (nr_le pn c).
+    pose proof (wtx_weight_nonneg c). pose proof (CardD2_len _ _ _ HD).
+    assert (KK * 1 <= KK * (len R - len rsp)) by (apply Z.mul_le_mono_nonneg_l; lia). lia.
+Qed.
+
+Lemma mu_done p c : is_done p = true -> mu p c = 0.
+Proof. unfold is_done, mu. destruct (ph p); try discriminate. reflexivity. Qed.
+
+(* every block the reader hands to clf.exchange fits the frame size: PCB + INF + 2 EDC bytes <= miu + 3 = FSC *)
+Definition blk_ok (b : bytes) : Prop := len b + 2 <= miu k + 3.
+
+Lemma sync_emit_ok p c : Sync p c -> is_done p = false -> blk_ok (pcd_emit p).
+Proof.
+  intros H Hd. unfold blk_ok.
+  assert (Hrd : forall retry c d, rdata retry c d -> len retry = 1 -> len d + 2 <= miu k + 3).
+  { intros retry c0 d [-> | w ws nxt -> _] Hl; [lia | cbn; lia]. }
+  destruct H as [pn off i d c Hb Hoff Hdd HA | pn off i d c Hb Hoff Hm HB Hrd' | pn off i d c Hb Hoff Hm HC Hrd'
+                | pn i rsp c Hb HD | pn i d rsp c Hb HD Hrd' | pn c | pn e c]; try discriminate;
+    cbn [pcd_emit ph mkp].
+  - destruct Hdd as [-> | [-> _]]; [|cbn; lia].
+    unfold iblock. rewrite len_cons. pose proof (len_slice_le cmd off (miu k)). lia.
+  - eapply Hrd; [eassumption | reflexivity].
+  - eapply Hrd; [eassumption | reflexivity].
+  - cbn; lia.
+  - eapply Hrd; [eassumption | reflexivity].
+Qed.
+
+(* ---------------------------------------------------------------- the whole exchange *)
+Lemma run_done fuel p c sc tr r : ph p = PDone r ->
+  run app fuel k kc cmd p c sc tr = {| o_res := r; o_pni := pni p; o_card := c; o_blocks := rev tr |}.
+Proof. intro H. destruct fuel; cbn [run]; rewrite H; reflexivity. Qed.
+Lemma run_zero p c sc tr : is_done p = false ->
+  run app 0 k kc cmd p c sc tr = {| o_res := Hang; o_pni := pni p; o_card := c; o_blocks := rev tr |}.
+Proof. unfold is_done. intro H. cbn [run]. destruct (ph p); try discriminate; reflexivity. Qed.
+Lemma run_step f p c sc tr : is_done p = false ->
+  run app (S f) k kc cmd p c sc tr =
+  let ff := match sc with [] => (FD, FD) | x :: _ => x end in
+  let '(p', c') := round app k kc cmd (p, c) ff in
+  run app f k kc cmd p' c' (tl sc) (pcd_emit p :: tr).
+Proof. unfold is_done. intro H. cbn [run]. destruct (ph p); try discriminate; reflexivity. Qed.
+
+Lemma is_done_ph p : is_done p = true -> exists r, ph p = PDone r.
+Proof. unfold is_done. destruct (ph p); try discriminate. eauto. Qed.
+
+Lemma Forall_rev_cons {A} (P : A -> Prop) x l : Forall P (rev l) -> P x -> Forall P (rev (x :: l)).
+Proof. intros H Hx. cbn [rev]. apply Forall_app. split; [assumption|]. constructor; [assumption|constructor]. Qed.
+
+Definition final_ok (o : outcome) : Prop :=
+  (o_res o = Ok R /\ bit (o_pni o) /\ bn (o_card o) = flip (o_pni o) /\ pend (o_card o) = None /\
+   txrest (o_card o) = [] /\ rxbuf (o_card o) = [] /\ execs (o_card o) = e0 ++ [cmd])
+  \/ (exists e, o_res o = Err (TagCommandError e)).
+
+Lemma sync_done_final p c r : Sync p c -> ph p = PDone r ->
+  final_ok {| o_res := r; o_pni := pni p; o_card := c; o_blocks := [] |}.
+Proof.
+  intros H Hp. unfold final_ok. cbn [o_res o_pni o_card].
+  destruct H as [pn off i d c Hb Hoff Hdd HA | pn off i d c Hb Hoff Hm HB Hrd | pn off i d c Hb Hoff Hm HC Hrd
+                | pn i rsp c Hb HD | pn i d rsp c Hb HD Hrd | pn c Hb H1 H2 H3 H4 H5 | pn e c He];
+    cbn [ph mkp pni tagerr] in Hp |- *; try discriminate; inversion Hp; subst r.
+  - left. repeat split; assumption.
+  - right. eauto.
+Qed.
+
+Lemma run_sync fuel : forall p c sc tr, Sync p c -> Forall blk_ok (rev tr) ->
+  let o := run app fuel k kc cmd p c sc tr in
+  Forall blk_ok (o_blocks o) /\ exec_ok (o_card o) /\
+  ((o_res o = Hang /\ Z.of_nat fuel < mu p c) \/
+   final_ok {| o_res := o_res o; o_pni := o_pni o; o_card := o_card o; o_blocks := [] |}).
+Proof.
+  induction fuel as [|f IH]; intros p c sc tr HS Htr; cbv zeta.
+  - destruct (is_done p) eqn:Hd.
+    + destruct (is_done_ph p Hd) as [r Hr]. rewrite (run_done 0 p c sc tr r Hr). cbn [o_res o_pni o_card o_blocks].
+      split; [assumption|]. split; [eapply Sync_exec; eassumption|]. right. eapply sync_done_final; eassumption.
+    + rewrite run_zero by assumption. cbn [o_res o_pni o_card o_blocks].
+      split; [assumption|]. split; [eapply Sync_exec; eassumption|]. left. split; [reflexivity|].
+      pose proof (mu_pos p c HS Hd). lia.
+  - destruct (is_done p) eqn:Hd.
+    + destruct (is_done_ph p Hd) as [r Hr]. rewrite (run_done (S f) p c sc tr r Hr). cbn [o_res o_pni o_card o_blocks].
+      split; [assumption|]. split; [eapply Sync_exec; eassumption|]. right. eapply sync_done_final; eassumption.
+    + rewrite run_step by assumption. cbv zeta.
+      pose proof (round_sync p c (match sc with [] => (FD, FD) | x :: _ => x end) HS Hd) as Hr.
+      destruct (round app k kc cmd (p, c) (match sc with [] => (FD, FD) | x :: _ => x end)) as [p' c'].
+      destruct Hr as [HS' Hmu].
+      specialize (IH p' c' (tl sc) (pcd_emit p :: tr) HS'
+                    (Forall_rev_cons _ _ _ Htr (sync_emit_ok p c HS Hd))).
+      cbv zeta in IH. destruct IH as (H1 & H2 & H3).
+      split; [assumption|]. split; [assumption|].
+      destruct H3 as [[Hh Hlt] | Hfin]; [left; split; [assumption | lia] | right; assumption].
+Qed.
+
+(* fault-free scripts *)
+Definition nofault (sc : list (fate * fate)) : Prop := Forall (fun ff => ff = (FD, FD)) sc.
+
+Lemma run_clean fuel : forall p c sc tr, Clean p c -> nofault sc ->
+  let o := run app fuel k kc cmd p c sc tr in
+  o_res o = Hang \/ (o_res o = Ok R /\ execs (o_card o) = e0 ++ [cmd]).
+Proof.
+  induction fuel as [|f IH]; intros p c sc tr HC Hsc; cbv zeta.
+  - destruct (is_done p) eqn:Hd.
+    + destruct (is_done_ph p Hd) as [r Hr]. rewrite (run_done 0 p c sc tr r Hr). cbn [o_res o_card]. right.
+      destruct HC; cbn [ph mkp] in Hr; try discriminate. inversion Hr; subst r. split; [reflexivity | assumption].
+    + rewrite run_zero by assumption. left; reflexivity.
+  - destruct (is_done p) eqn:Hd.
+    + destruct (is_done_ph p Hd) as [r Hr]. rewrite (run_done (S f) p c sc tr r Hr). cbn [o_res o_card]. right.
+      destruct HC; cbn [ph mkp] in Hr; try discriminate. inversion Hr; subst r. split; [reflexivity | assumption].
+    + rewrite run_step by assumption. cbv zeta.
+      assert (Hff : match sc with [] => (FD, FD) | x :: _ => x end = (FD, FD))
+        by (destruct sc as [|x sc']; [reflexivity | inversion Hsc; assumption]).
+      rewrite Hff. pose proof (round_clean p c HC Hd) as Hr.
+      destruct (round app k kc cmd (p, c) (FD, FD)) as [p' c'].
+      apply IH; [assumption|]. destruct sc as [|x sc']; [constructor | inversion Hsc; assumption].
+Qed.
+
+(* ---------------------------------------------------------------- entry: reader and card in step *)
+Definition Start (pn : Z) (c : picc) : Prop :=
+  bit pn /\ bn c = flip pn /\ pend c = None /\ rxbuf c = [] /\ txrest c = [] /\ execs c = e0.
+
+Lemma start_clean pn c : Start pn c -> 0 < len cmd -> Clean (pcd_start k cmd pn) c.
+Proof.
+  intros (Hb & Hbn & Hp & Hrx & Htx & Hex) Hc. unfold pcd_start.
+  replace (miu k =? 0) with false by lia. replace ((len cmd <=? 0) || (miu k <? 0)) with false by lia.
+  apply C_A; [assumption | lia |]. unfold CardA. rewrite take_0. repeat split; assumption.
+Qed.
+
+Definition fuel_bound (c : picc) : Z := KK * (len cmd + len R + 2) + 3 * wtx_weight c + 3 * Z.max 0 cap + 3.
+
+Lemma start_mu pn c : Start pn c -> 0 < len cmd -> mu (pcd_start k cmd pn) c <= fuel_bound c.
+Proof.
+  intros (Hb & Hbn & _) Hc. unfold pcd_start.
+  replace (miu k =? 0) with false by lia. replace ((len cmd <=? 0) || (miu k <? 0)) with false by lia.
+  unfold mu. cbn [ph pni]. rewrite kind_iblock by assumption. pose proof (nr_le pn c).
+  unfold base_send, fuel_bound, cap. replace (len cmd - 0) with (len cmd) by lia. lia.
+Qed.
+
+(* ---------------------------------------------------------------- faults within the budget are absorbed *)
+(* With f faulty rounds so far the retry counter i of the current step is at most 2f+1 (each fault costs one
+   iteration, each R(NAK)/R(ACK)-retransmit pair one more), at most 2f while an R(NAK) is pending.  A fault is
+   absorbed while i <= budget, so F faulty rounds in the whole exchange are absorbed when 2F-1 <= budget. *)
+Definition is_nak (d : bytes) : bool := match d with b :: _ => (b =? 178) || (b =? 179) | [] => false end.
+Definition live_ph (f : Z) (p : pcd) : Prop :=
+  match ph p with
+  | PSend off i d => i <= 2 * f + 1 /\ (is_nak d = true -> i <= 2 * f)
+  | PRecv i d rsp => i <= 2 * f + 1
+  | PDone (Ok _) => True
+  | _ => False
+  end.
+
+Lemma is_nak_iblock pn off : bit pn -> is_nak (iblock k cmd pn off) = false.
+Proof. intros [-> | ->]; unfold iblock, pfb_at, is_nak; destruct (more_at k cmd off); reflexivity. Qed.
+Lemma is_nak_nak pn : bit pn -> is_nak [Z.lor 178 pn] = true.
+Proof. intros [-> | ->]; reflexivity. Qed.
+
+Lemma Clean_live f p c : Clean p c -> 0 <= f -> ival p <= 2 * f + 1 -> live_ph f p.
+Proof.
+  intro H; destruct H; intros Hf Hi; unfold live_ph; cbn [ph mkp ival] in *.
+  - split; [lia|]. rewrite is_nak_iblock by assumption. discriminate.
+  - split; [lia|]. cbn. discriminate.
+  - split; [lia|]. cbn. discriminate.
+  - lia.
+  - lia.
+  - exact I.
+Qed.
+
+Lemma live_ival f p : live_ph f p -> 0 <= f -> ival p <= 2 * f + 1.
+Proof. unfold live_ph, ival. destruct (ph p); intros H Hf; try lia. Qed.
+
+(* a fault-free round from ANY related state: the reader is back on the fault-free track,
+   or it was answering rule 12's R(ACK) by a retransmission *)
+Lemma round_dd p c : Sync p c -> is_done p = false ->
+  let '(p', c') := round app k kc cmd (p, c) (FD, FD) in
+  (Clean p' c' /\ ival p' <= Z.max 1 (ival p)) \/
+  (exists pn off i, p = mkp pn (PSend off i [Z.lor 178 pn]) /\ bit pn /\
+     p' = if (if fix_rack k then i <=? n_nak k + 1 else true)
+          then mkp pn (PSend off (i + 1) (iblock k cmd pn off)) else mkp pn (tagerr E_PROTOCOL)).
+Proof.
+  intros HS Hd. unfold round. rewrite Hd. unfold air. cbn [fst snd].
+  destruct HS as [pn off i d c Hb Hoff Hdd HA | pn off i d c Hb Hoff Hm HB Hrd | pn off i d c Hb Hoff Hm HC Hrd
+                 | pn i rsp c Hb HD | pn i d rsp c Hb HD Hrd | pn c | pn e c]; try discriminate;
+    cbn [pcd_emit ph mkp ival].
+  - destruct Hdd as [-> | [-> Hi]].
+    + destruct (picc_absorb app kc c (iblock k cmd pn off)) as [c' r] eqn:E.
+      apply (card_A_iblock pn off c c' r Hb Hoff HA) in E. destruct E as (-> & Hw & HC').
+      left. destruct (more_at k cmd off) eqn:Hm.
+      * destruct (absorb_B pn off i (iblock k cmd pn off) c' Hb Hoff Hm HC') as (H1 & _ & H3). split; assumption.
+      * destruct (absorb_C pn off i (iblock k cmd pn off) c' Hb Hoff Hm HC') as (H1 & _ & H3). split; assumption.
+    + destruct (card_A_nak pn off c Hb HA) as (c' & -> & HA' & Hw).
+      right. exists pn, off, i. split; [reflexivity|]. split; [assumption|].
+      apply send_rx_rack_other; assumption.
+  - destruct (picc_absorb app kc c d) as [c' r] eqn:E.
+    apply (CardB_step pn off c d c' r Hb HB Hrd) in E. destruct E as (-> & HB' & _).
+    left. destruct (absorb_B pn off i d c' Hb Hoff Hm HB') as (H1 & _ & H3). split; assumption.
+  - destruct (picc_absorb app kc c d) as [c' r] eqn:E.
+    apply (CardC_step pn c d c' r Hb HC Hrd) in E. destruct E as (-> & HC' & _).
+    left. destruct (absorb_C pn off i d c' Hb Hoff Hm HC') as (H1 & _ & H3). split; assumption.
+  - destruct (picc_absorb app kc c [Z.lor 162 pn]) as [c' r] eqn:E.
+    apply (card_D1_ack pn rsp c c' r Hb HD) in E. destruct E as (-> & _ & HD').
+    left. destruct (absorb_D2 pn i [Z.lor 162 pn] rsp c' Hb HD') as (H1 & _ & H3). split; assumption.
+  - destruct (picc_absorb app kc c d) as [c' r] eqn:E.
+    apply (CardD2_step pn rsp c d c' r Hb HD Hrd) in E. destruct E as (-> & HD' & _).
+    left. destruct (absorb_D2 pn i d rsp c' Hb HD') as (H1 & _ & H3). split; assumption.
+Qed.
+
+Definition is_dd (ff : fate * fate) : bool := match ff with (FD, FD) => true | _ => false end.
+Lemma is_dd_eq ff : is_dd ff = true -> ff = (FD, FD).
+Proof. destruct ff as [[| |] [| |]]; cbn; congruence. Qed.
+
+(* a faulty round: whatever the card does, the reader sees a timeout or a transmission error *)
+Lemma round_fault p c ff : is_dd ff = false -> is_done p = false ->
+  exists a, (a = ATimeout \/ a = ATxErr) /\ fst (round app k kc cmd (p, c) ff) = pcd_absorb k cmd p a.
+Proof.
+  intros Hff Hd. unfold round. rewrite Hd. unfold air.
+  destruct ff as [f1 f2]. cbn [fst snd].
+  destruct f1; [| exists ATimeout; split; [left|]; reflexivity | exists ATimeout; split; [left|]; reflexivity].
+  destruct (picc_absorb app kc c (pcd_emit p)) as [c' [rsp|]].
+  - destruct f2; [discriminate | exists ATimeout; split; [left|]; reflexivity | exists ATxErr; split; [right|]; reflexivity].
+  - exists ATimeout; split; [left|]; reflexivity.
+Qed.
+
+Lemma live_fault f p a : live_ph f p -> 0 <= f -> 2 * f + 1 <= n_nak k -> 2 * f + 1 <= n_ack k ->
+  a = ATimeout \/ a = ATxErr -> live_ph (f + 1) (pcd_absorb k cmd p a).
+Proof.
+  intros Hl Hf Hn1 Hn2 Ha. destruct p as [pn f0]. unfold live_ph in Hl. cbn [ph] in Hl.
+  destruct f0 as [off i d | off d | i d rsp | r]; try contradiction.
+  - change {| pni := pn; ph := PSend off i d |} with (mkp pn (PSend off i d)).
+    rewrite send_timeout by assumption. replace (i <=? n_nak k) with true by lia.
+    unfold live_ph. cbn [ph mkp]. split; lia.
+  - change {| pni := pn; ph := PRecv i d rsp |} with (mkp pn (PRecv i d rsp)).
+    rewrite recv_timeout by assumption. replace (i <=? n_ack k) with true by lia.
+    unfold live_ph. cbn [ph mkp]. lia.
+  - destruct r; try contradiction. exact I.
+Qed.
+
+Fixpoint faults (sc : list (fate * fate)) : Z :=
+  match sc with [] => 0 | ff :: t => (if is_dd ff then 0 else 1) + faults t end.
+Lemma faults_nonneg sc : 0 <= faults sc.
+Proof. induction sc as [|ff t IH]; cbn [faults]; [lia|]. destruct (is_dd ff); lia. Qed.
+
+Lemma run_live fuel : forall p c sc tr f F, Sync p c -> live_ph f p -> 0 <= f -> f + faults sc <= F ->
+  2 * F - 1 <= n_nak k -> 2 * F - 1 <= n_ack k ->
+  let o := run app fuel k kc cmd p c sc tr in
+  o_res o = Hang \/ (o_res o = Ok R /\ execs (o_card o) = e0 ++ [cmd]).
+Proof.
+  induction fuel as [|fu IH]; intros p c sc tr f F HS Hl Hf HF Hn1 Hn2; cbv zeta.
+  - destruct (is_done p) eqn:Hd; [|rewrite run_zero by assumption; left; reflexivity].
+    destruct (is_done_ph p Hd) as [r Hr]. rewrite (run_done 0 p c sc tr r Hr). cbn [o_res o_card]. right.
+    unfold live_ph in Hl. rewrite Hr in Hl. destruct r; try contradiction.
+    destruct HS; cbn [ph mkp tagerr] in Hr; try discriminate. inversion Hr. split; [reflexivity | assumption].
+  - destruct (is_done p) eqn:Hd.
+    { destruct (is_done_ph p Hd) as [r Hr]. rewrite (run_done (S fu) p c sc tr r Hr). cbn [o_res o_card]. right.
+      unfold live_ph in Hl. rewrite Hr in Hl. destruct r; try contradiction.
+      destruct HS; cbn [ph mkp tagerr] in Hr; try discriminate. inversion Hr. split; [reflexivity | assumption]. }
+    rewrite run_step by assumption. cbv zeta.
+    set (ff := match sc with [] => (FD, FD) | x :: _ => x end).
+    pose proof (faults_nonneg sc) as Hfs. pose proof (faults_nonneg (tl sc)) as Hft.
+    pose proof (round_sync p c ff HS Hd) as Hrs.
+    destruct (is_dd ff) eqn:Edd.
+    + (* fault-free round *)
+      assert (Hfl : faults (tl sc) <= faults sc) by (destruct sc as [|x t]; cbn [tl faults]; [lia | destruct (is_dd x); lia]).
+      apply is_dd_eq in Edd. rewrite Edd in *.
+      pose proof (round_dd p c HS Hd) as Hdd.
+      destruct (round app k kc cmd (p, c) (FD, FD)) as [p' c']. destruct Hrs as [HS' _].
+      apply (IH p' c' (tl sc) _ f F); try assumption; try lia.
+      destruct Hdd as [[HC Hi] | (pn & off & i & -> & Hb & ->)].
+      * eapply Clean_live; [eassumption | assumption |]. pose proof (live_ival f p Hl Hf). lia.
+      * unfold live_ph in Hl. cbn [ph mkp] in Hl. destruct Hl as [Hl1 Hl2].
+        specialize (Hl2 (is_nak_nak pn Hb)).
+        replace (if fix_rack k then i <=? n_nak k + 1 else true) with true by (destruct (fix_rack k); lia).
+        unfold live_ph. cbn [ph mkp]. split; [lia|]. rewrite is_nak_iblock by assumption. discriminate.
+    + (* faulty round *)
+      assert (Hfl : faults (tl sc) = faults sc - 1).
+      { destruct sc as [|x t]; [subst ff; discriminate|]. subst ff. cbn [tl faults]. rewrite Edd. lia. }
+      destruct (round_fault p c ff Edd Hd) as (a & Ha & Hp').
+      destruct (round app k kc cmd (p, c) ff) as [p' c']. cbn [fst] in Hp'. subst p'. destruct Hrs as [HS' _].
+      apply (IH _ c' (tl sc) _ (f + 1) F); try assumption; try lia.
+      apply live_fault; try assumption; lia.
+Qed.
+
+Lemma start_live pn c : Start pn c -> 0 < len cmd -> live_ph 0 (pcd_start k cmd pn).
+Proof.
+  intros (Hb & _) Hc. unfold pcd_start.
+  replace (miu k =? 0) with false by lia. replace ((len cmd <=? 0) || (miu k <? 0)) with false by lia.
+  unfold live_ph. cbn [ph]. split; [lia|]. rewrite is_nak_iblock by assumption. discriminate.
+Qed.
+End SyncProof.
+
+(* ---------------------------------------------------------------- the theorems about IsoDepInitiator.exchange *)
+Definition repaired (k : cfg) : Prop := fix_wtx_try k = true /\ fix_wtx_chain k = true.
+Definition params_ok (k : cfg) (kc : ccfg) : Prop := 0 < miu k /\ 0 < cmiu kc /\ miu k + 3 <= cfsc kc.
+(* reader and card block numbers in step, no exchange in progress: the state after activation
+   (pni = 0, card block number 1) and after every successful exchange *)
+Definition in_step (pn : Z) (c : picc) : Prop :=
+  bit pn /\ bn c = flip pn /\ pend c = None /\ rxbuf c = [] /\ txrest c = [].
+Definition response (app : Z -> bytes -> bytes) (c : picc) (cmd : bytes) : bytes := app (len (execs c)) cmd.
+Definition enough_fuel (app : Z -> bytes -> bytes) (k : cfg) (cmd : bytes) (c : picc) (fuel : nat) : Prop :=
+  fuel_bound app k cmd (execs c) c <= Z.of_nat fuel.
+
+Section Exchange.
+Variable app : Z -> bytes -> bytes.
+Variable k : cfg.
+Variable kc : ccfg.
+Variable cmd : bytes.
+Variable pn : Z.
+Variable c : picc.
+Hypothesis Hrep : repaired k.
+Hypothesis Hpar : params_ok k kc.
+Hypothesis Hstep : in_step pn c.
+Hypothesis Hcmd : 0 < len cmd.
+
+Let Hstart : Start (execs c) pn c.
+Proof. destruct Hstep as (H1 & H2 & H3 & H4 & H5). repeat split; assumption. Qed.
+
+Lemma exchange_sync fuel sc :
+  let o := exchange app fuel k kc cmd pn c sc in
+  Forall (blk_ok k) (o_blocks o) /\ exec_ok cmd (execs c) (o_card o) /\
+  ((o_res o = Hang /\ Z.of_nat fuel < fuel_bound app k cmd (execs c) c) \/
+   final_ok app cmd (execs c) {| o_res := o_res o; o_pni := o_pni o; o_card := o_card o; o_blocks := [] |}).
+Proof.
+  destruct Hrep as [Hf1 Hf2]. destruct Hpar as (Hm & Hcm & Hfs). unfold exchange. cbv zeta.
+  pose proof (start_clean app k kc cmd (execs c) Hm pn c Hstart Hcmd) as HC.
+  pose proof (run_sync app k kc cmd (execs c) Hm Hcm Hfs Hf1 Hf2 fuel _ c sc []
+                (Clean_Sync _ _ _ _ _ _ _ HC) (Forall_nil _)) as H.
+  cbv zeta in H. destruct H as (H1 & H2 & H3). split; [assumption|]. split; [assumption|].
+  destruct H3 as [[Hh Hlt] | Hfin]; [left; split; [assumption|] | right; assumption].
+  pose proof (start_mu app k cmd (execs c) Hm pn c Hstart Hcmd). lia.
+Qed.
+
+Theorem exchange_block_bound fuel sc :
+  Forall (fun b => len b + 2 <= miu k + 3) (o_blocks (exchange app fuel k kc cmd pn c sc)).
+Proof. apply (exchange_sync fuel sc). Qed.
+
+Theorem exchange_at_most_once fuel sc :
+  let o := exchange app fuel k kc cmd pn c sc in
+  execs (o_card o) = execs c \/ execs (o_card o) = execs c ++ [cmd].
+Proof. apply (exchange_sync fuel sc). Qed.
+
+Theorem exchange_result_sound fuel sc :
+  let o := exchange app fuel k kc cmd pn c sc in
+  match o_res o with
+  | Ok r => r = response app c cmd /\ execs (o_card o) = execs c ++ [cmd] /\ in_step (o_pni o) (o_card o)
+  | Err (TagCommandError _) => True
+  | Hang => Z.of_nat fuel < fuel_bound app k cmd (execs c) c
+  | _ => False
+  end.
+Proof.
+  cbv zeta. destruct (exchange_sync fuel sc) as (_ & _ & [[Hh Hlt] | Hfin]).
+  - rewrite Hh. exact Hlt.
+  - unfold final_ok in Hfin. cbn [o_res o_pni o_card] in Hfin.
+    destruct Hfin as [(Hr & Hb & H1 & H2 & H3 & H4 & H5) | [e He]].
+    + rewrite Hr. split; [reflexivity|]. split; [assumption|]. repeat split; assumption.
+    + rewrite He. exact I.
+Qed.
+
+Theorem exchange_terminates fuel sc : enough_fuel app k cmd c fuel ->
+  let o := exchange app fuel k kc cmd pn c sc in
+  (o_res o = Ok (response app c cmd) \/ exists e, o_res o = Err (TagCommandError e)).
+Proof.
+  unfold enough_fuel. intro Hf. cbv zeta. pose proof (exchange_result_sound fuel sc) as H. cbv zeta in H.
+  destruct (o_res (exchange app fuel k kc cmd pn c sc)) as [r | e | x |]; try contradiction.
+  - left. destruct H as [-> _]. reflexivity.
+  - destruct e; try contradiction. right. eauto.
+  - lia.
+Qed.
+
+Theorem exchange_nofault_exact fuel sc : nofault sc -> enough_fuel app k cmd c fuel ->
+  let o := exchange app fuel k kc cmd pn c sc in
+  o_res o = Ok (response app c cmd) /\ execs (o_card o) = execs c ++ [cmd] /\ in_step (o_pni o) (o_card o).
+Proof.
+  intros Hsc Hf. cbv zeta.
+  destruct Hrep as [Hf1 Hf2]. destruct Hpar as (Hm & Hcm & Hfs).
+  pose proof (start_clean app k kc cmd (execs c) Hm pn c Hstart Hcmd) as HC.
+  pose proof (run_clean app k kc cmd (execs c) Hm Hcm Hfs Hf1 Hf2 fuel _ c sc [] HC Hsc) as H. cbv zeta in H.
+  fold (exchange app fuel k kc cmd pn c sc) in H.
+  pose proof (exchange_result_sound fuel sc) as Hs. cbv zeta in Hs.
+  destruct H as [Hh | [Hr He]].
+  - rewrite Hh in Hs. unfold enough_fuel in Hf. lia.
+  - rewrite Hr in Hs. destruct Hs as (_ & H2 & H3). split; [exact Hr|]. split; assumption.
+Qed.
+
+(* any script with at most F faulty rounds (anywhere, any kind) is absorbed when 2F-1 <= both budgets *)
+Theorem exchange_absorbs fuel sc F : faults sc <= F -> 2 * F - 1 <= n_nak k -> 2 * F - 1 <= n_ack k ->
+  enough_fuel app k cmd c fuel ->
+  let o := exchange app fuel k kc cmd pn c sc in
+  o_res o = Ok (response app c cmd) /\ execs (o_card o) = execs c ++ [cmd] /\ in_step (o_pni o) (o_card o).
+Proof.
+  intros HF Hn1 Hn2 Hf. cbv zeta.
+  destruct Hrep as [Hf1 Hf2]. destruct Hpar as (Hm & Hcm & Hfs).
+  pose proof (start_clean app k kc cmd (execs c) Hm pn c Hstart Hcmd) as HC.
+  pose proof (run_live app k kc cmd (execs c) Hm Hcm Hfs Hf1 Hf2 fuel _ c sc [] 0 F
+                (Clean_Sync _ _ _ _ _ _ _ HC) (start_live app k cmd (execs c) Hm pn c Hstart Hcmd)
+                (Z.le_refl 0)) as H.
+  cbv zeta in H. fold (exchange app fuel k kc cmd pn c sc) in H.
+  specialize (H ltac:(lia) Hn1 Hn2).
+  pose proof (exchange_result_sound fuel sc) as Hs. cbv zeta in Hs.
+  destruct H as [Hh | [Hr He]].
+  - rewrite Hh in Hs. unfold enough_fuel in Hf. lia.
+  - rewrite Hr in Hs. destruct Hs as (_ & H2 & H3). split; [exact Hr|]. split; assumption.
+Qed.
+End Exchange.
